@@ -661,7 +661,8 @@ def _generators_fold(L, repo, ref):
                     cnt[0] += 1
                     return (cnt[0] * 7 // 3) % 2
                 e = Ev(repo, rm, env={params(g)[1]: m}, self_cls=rci)
-                e.hooks = {"random.randint": rnd, "random.getrandbits": lambda a: 0}
+                e.hooks = {"random.randint": rnd, "random.getrandbits": lambda a: 0x5a5a5a5a5a5a5a5a5a5a5a5a5a5a5a5a5a5a5a & ((1 << (a[0] if a else 1)) - 1),
+                           "random.random": lambda a: 0.25}
                 r = e.run_block(g.body)
                 out = r[1] if isinstance(r, tuple) else None
                 seq = m.attrs.get("seq")
@@ -679,7 +680,8 @@ def _generators_fold(L, repo, ref):
                         picks.append((meth, bt, m.name, "raises %s" % ex2.cls))
             asked = []
             e = Ev(repo, rm, env={params(g)[1]: None}, self_cls=rci)
-            e.hooks = {"random.randint": lambda a: 1, "self.get_rand_tsc": lambda a: (asked.append(a[0]), mine[0])[1]}
+            e.hooks = {"random.randint": lambda a: 1, "random.getrandbits": lambda a: (1 << (a[0] if a else 1)) - 1, "random.random": lambda a: 0.5,
+                       "self.get_rand_tsc": lambda a: (asked.append(a[0]), mine[0])[1]}
             e.run_block(g.body)
             rows.append((meth, bt, "<default>", [bt], [str(getattr(x, "name", x)).split(".")[-1] for x in asked]))
     except (Unknown, Raised):
